@@ -15,3 +15,6 @@ ASSUMPTIONS = ["as C30: plonky2 primitives transcribed, proof system trusted",
 
 def nontrivial(case, model_out):
     return len(case.segs.split(";")) >= 2
+
+# fids whose cases apply hint overrides addressed by (generator kind, occurrence) - see runner.default_judge
+OVERRIDE_FIDS = {"3102"}
